@@ -74,6 +74,8 @@ PROPS['C09'] = dict(
         ('FrameFacts', 'peek_restores', 'Peek over ANY inner construct (success or swallowed failure) returns a seekable stream exactly as it was.'),
         ('FrameFacts', 'union_none_restores', 'Union(None, ...) over ANY members returns a seekable stream exactly as it was.'),
         ('FrameFacts', 'union_loop_restores', 'Every member of a Union is parsed from the same stream: after each member the stream is exactly the starting one.'),
+        ('UnionFacts', 'union_index_ends_at_selected', 'Union(j, ...) over ANY members: the parse ends exactly where member number j ended when parsed from the start of the union.'),
+        ('UnionFacts', 'union_name_ends_at_selected', 'Union("name", ...): the parse ends exactly where a member of that name ended when parsed from the start of the union - anonymous members in front of it do not shift the choice.'),
         ('FrameFacts', 'union_loop_records', 'Every end position a Union records is the end position of one of its members parsed from the starting stream.'),
     ],
     requires=['ConInd'],
@@ -81,6 +83,11 @@ PROPS['C09'] = dict(
 Example C09_ex_select_partial :
   parse_at (CSequence [CSelect [CSequence [CFormat Big FB; CConst (VInt 7) (CFormat Big FB)]; CFormat Big FB]; CTell])
            [] [x05; x06; x07] 0 = Ok (VList [VInt 5; VInt 1], 1%Z).
+Proof. vm_compute; reflexivity. Qed.
+(* an anonymous member in front of the selected one: the position is the end of the member NAMED b (2), not of the member at index 1 (1) *)
+Example C09_ex_union_by_name :
+  parse_at (CSequence [CUnion (USName [x62]) [CFormat Big FB; CRenamed [x62] (CFormat Big FH); CRenamed [x63] (CFormat Big FL)]; CTell])
+           [] [x01; x02; x03; x04] 0 = Ok (VList [VDict [([x62], VInt 258); ([x63], VInt 16909060)]; VInt 2], 2%Z).
 Proof. vm_compute; reflexivity. Qed.
 (* the first alternative writes four bytes before its second field fails; none of them is in the output *)
 Example C09_ex_select_build_partial :
